@@ -121,6 +121,21 @@ def mutants_of_expr(e):
             m = copy.deepcopy(e)
             del m.keywords[i_]
             yield f"keyword {k_.arg}= dropped", m
+    # economies: something that "looked redundant" is removed
+    if isinstance(e, ast.BinOp) and isinstance(e.op, (ast.BitAnd, ast.BitOr)):
+        yield f"economy: {'&' if isinstance(e.op, ast.BitAnd) else '|'} right operand dropped", copy.deepcopy(e.left)
+        yield f"economy: {'&' if isinstance(e.op, ast.BitAnd) else '|'} left operand dropped", copy.deepcopy(e.right)
+    if isinstance(e, ast.Call) and len(e.args) == 1 and not e.keywords and not isinstance(e.args[0], (ast.GeneratorExp, ast.Starred)) and (
+            (isinstance(e.func, ast.Name) and e.func.id in ("tuple", "list", "frozenset", "set", "dict", "int", "bool", "Feature", "flipped")) or
+            (isinstance(e.func, ast.Attribute) and e.func.attr in ("Name", "cast", "Access", "Trigger"))):
+        yield f"economy: {ast.unparse(e.func)}() unwrapped", copy.deepcopy(e.args[0])
+    if isinstance(e, ast.Call) and isinstance(e.func, ast.Name) and e.func.id == "Mux" and len(e.args) == 3:
+        yield "economy: Mux -> its second operand", copy.deepcopy(e.args[1])
+    if isinstance(e, ast.Call) and isinstance(e.func, ast.Attribute) and e.func.attr in ("replicate", "any", "bool", "as_unsigned") and len(e.args) <= 1:
+        yield f"economy: .{e.func.attr}() dropped", copy.deepcopy(e.func.value)
+    if isinstance(e, ast.Call) and isinstance(e.func, ast.Name) and e.func.id in ("max", "min") and len(e.args) == 2 and not e.keywords:
+        yield f"economy: {e.func.id}(a, b) -> b", copy.deepcopy(e.args[1])
+        yield f"economy: {e.func.id}(a, b) -> a", copy.deepcopy(e.args[0])
     if isinstance(e, ast.Subscript) and isinstance(e.slice, ast.Slice) and e.slice.lower is None and e.slice.upper is not None:
         m = copy.deepcopy(e)
         m.slice = ast.Slice(lower=ast.Constant(value=1), upper=e.slice.upper, step=e.slice.step)
